@@ -407,8 +407,13 @@ def check(P, R):
     nname = new.targets[0].id
     nn = ag.node_of_stmt(new)[0]
     # reads of <new>.params / params_signature() on the path where the existing route is reused
+    # the variable that names the route the rule ends up on (the one handed to the tree when it is new)
+    wname = nname
+    for c_ in T.calls_to(ad, 'self.radidict.add'):
+        if len(c_.args) >= 2 and isinstance(c_.args[1], ast.Name):
+            wname = c_.args[1].id
     reuse = [st for st in walk_shallow(ad.node) if isinstance(st, ast.Assign) and isinstance(st.value, ast.Name)
-             and isinstance(st.targets[0], ast.Name) and st.targets[0].id == nname and st.value.id != nname]
+             and isinstance(st.targets[0], ast.Name) and st.targets[0].id == wname and st.value.id != nname]
     R.require(reuse, '_add: reuse of an existing route (`route = route_`) not found')
     run = ag.node_of_stmt(reuse[0])[0]
     uses = []
@@ -668,7 +673,7 @@ def check_idx_pairing(P, R, rid):
     # whole-node rebuilds: _split (idx= keyword with children=[node]), _try_merge (pnode[:] = child)
     sp = cls_.methods.get('_split')
     R.require(sp is not None, 'RadiDict._split missing')
-    mk = T.calls_to(sp, 'self._make_node')
+    mk = T.calls_to(sp, 'self._make_node', '_make_node', 'RadiDict._make_node')
     ok = False
     for c in mk:
         kw = {k.arg: k.value for k in c.keywords}
